@@ -238,7 +238,7 @@ class Circuit:
         for i in sorted(self.__internal_modes):
             # Need to account for shifts when adding new heralds
             target_mode = i - mode
-            for m in circuit.heralds["input"]:
+            for m in sorted(circuit.heralds["input"]):
                 if target_mode > m:
                     target_mode += 1
             if 0 <= target_mode < circuit.n_modes:
